@@ -421,9 +421,11 @@ def judge_run(case, run, root, out):
         # first site of that name whose expected target differs from what was taken
         ent = None
         for e in ents:
-            if e["unit"] != got_unit or got_unit is None:
+            if (got_unit is None and e["unit"] is not None) or (got_unit is not None and e["unit"] != got_unit):
                 ent = e
                 break
+        if ent is None and ents:
+            ent = ents[0]
         effect = dict(form="?", expected="none", got="none", nS="")
         sites = all_sites
         if ent is None:
@@ -533,6 +535,8 @@ def _key(case, run, v):
     unit = {u["id"]: u for u in case["units"]}
     causes = set()
     vsites = v["sites"]
+    if v["cat"] == "not-owned" and "cmdline" in v["effect"]["route"].split("+"):
+        vsites = []        # the file was named on the command line: how it was #included is immaterial
     if v["cat"] == "tool-failed":
         vsites = [(u["id"], si) for u in case["units"] for si in range(len(u["sites"]))]
     for uid, si in vsites:
@@ -856,21 +860,31 @@ def _minimise(ctx, case, ri, cat):
                 cur, v = c, v2
                 progress = True
                 break
-        # operand normalisation of the sites involved, once nothing else can be dropped
+        # operand normalisation of the sites involved, one site at a time, once nothing else can be dropped
         if not progress:
-            c = _normalise_operands(ctx, cur, v)
-            if c is not None and ops_round < 2:
-                ops_round = 2
+            unit = {u["id"]: u for u in cur["units"]}
+            for uid, si in (v["sites"] or []):
+                if uid not in unit or si >= len(unit[uid]["sites"]):
+                    continue
+                label = "normop:%d:%s" % (uid, unit[uid]["sites"][si]["operand"])
+                if label in tried or _class_path(cur, unit[uid]["sites"][si]["operand"]) in BENIGN:
+                    continue
+                tried.add(label)
+                c = _normalise_operands(ctx, cur, v, only=(uid, si))
+                if c is None:
+                    continue
                 v2 = find(c)
                 if v2 is not None:
                     cur, v = c, v2
                     progress = True
+                    break
     return cur, v
 
 
-def _normalise_operands(ctx, case, v):
-    """rewrite the operands of the violating sites to the plain relative path from the first directory of the
-    (full) stated order under which the operand names a file to that physical file"""
+def _normalise_operands(ctx, case, v, only=None):
+    """rewrite the operand of the violating sites (all, or only the one given as (unit id, site index)) to the
+    plain relative path from the first directory of the (full) stated order under which the operand names a
+    file to that physical file"""
     d = ctx.casedir("%s-norm" % case["id"])
     shutil.rmtree(d, ignore_errors=True)
     root = os.path.join(d, "root")
@@ -882,6 +896,8 @@ def _normalise_operands(ctx, case, v):
         unit = {u["id"]: u for u in c["units"]}
         changed = False
         vs = v["sites"] or [(u["id"], si) for u in case["units"] for si in range(len(u["sites"]))]
+        if only is not None:
+            vs = [only]
         for uid, si in vs:
             if uid not in unit or si >= len(unit[uid]["sites"]):
                 continue
